@@ -98,8 +98,8 @@ const (
 	progBad     = "("
 	// a format string as first token: the program text starts with a character (@) that means
 	// "read the value from a file" in option values
-	progFmt = "@json"
-	progState   = `((try .a catch 0)|if type=="array" then error("E") else empty end),[(_input_io_errors//{}|keys),(_input_decode_errors//{}|keys),(_cli_last_expr_error!=null),_input_filenames]`
+	progFmt   = "@json"
+	progState = `((try .a catch 0)|if type=="array" then error("E") else empty end),[(_input_io_errors//{}|keys),(_input_decode_errors//{}|keys),(_cli_last_expr_error!=null),_input_filenames]`
 )
 
 var progNames = map[string]string{progDot: "dot", progA: "a", progPartial: "partial", progErr: "error", progBad: "nocompile", progState: "state", progFmt: "format"}
